@@ -21,6 +21,7 @@ _FUNCS = {}  # atom text -> (function name, [arg Polys])
 # inverse pairs in the given argument position: f_inv(a, f(a, x)) -> x
 INVERSE_PAIRS = {("gammainccinv", "gammaincc"), ("gammaincc", "gammainccinv"), ("gammaincinv", "gammainc"), ("gammainc", "gammaincinv")}
 NP_PREFIXES = ("np.", "numpy.", "math.", "scipy.special.", "special.")
+MODULE_NAMES = {"np", "numpy", "scipy", "math", "linalg", "special", "integrate", "opt", "nd", "stats"}
 
 
 class Poly:
@@ -505,7 +506,11 @@ def leaves(expr, env=None, _depth=0):
         if isinstance(e, ast.Call):
             if isinstance(e.func, ast.Attribute):
                 out.add("()" + e.func.attr)
-                walk(e.func.value, bound)
+                base = e.func.value
+                while isinstance(base, ast.Attribute):
+                    base = base.value
+                if not (isinstance(base, ast.Name) and base.id in MODULE_NAMES):
+                    walk(e.func.value, bound)
             elif isinstance(e.func, ast.Name):
                 out.add("()" + e.func.id)
             for a in e.args:
